@@ -60,8 +60,12 @@ def run(ctx):
                 if isinstance(k, ast.Constant):
                     in_handler = any(isinstance(h, ast.ExceptHandler) and any(x is n for x in ast.walk(h)) for h in ast.walk(ex.node))
                     written[k.value] = 'handler' if in_handler else 'normal'
-    if len(written) < 2:
+    if not written:
         raise AnalysisError('anchor-lost role=envelope tags written by the executor (found %s)' % written)
+    if len(written) < 2 or 'handler' not in written.values() or 'normal' not in written.values():
+        res.add(Finding('C01', 'C01.b', 'R-AGREE', ex.file, ex.qualname, ex.node.lineno, 'envelope tags written: %s' % sorted(written.items()),
+                        'the executor does not record both outcomes of the wrapped call (a value envelope on return, an exception envelope in its '
+                        'handler): a call that raised while recording cannot raise again on replay'))
     env_vars = []
     for n in walk_own(rd.node):
         if isinstance(n, ast.Assign) and isinstance(n.value, ast.Call) and isinstance(n.value.func, ast.Attribute) and \
